@@ -48,7 +48,9 @@ class BaseTranslateFilter:
     """
 
     name = "base"
-    re_vars = re.compile(r"(?<!%)%\((\w+)\)s")
+    # Like the translate tag's: names may contain hyphens, and a placeholder can follow
+    # an escaped percent sign.
+    re_vars = re.compile(r"(?<!%)(?:%%)*%\(([\w-]+)\)s")
     with_context = True
 
     def __init__(
